@@ -596,7 +596,7 @@ class C13(Prop):
         g = Gen(rng)
         cases = []
         types = V.SCALARS + [("l", "i"), ("l", "s"), ("l", "d"), ("m", "s", "i"), ("l", ("l", "i"))]
-        n = 260 if quick else 12000
+        n = 260 if quick else 6000
         for i in range(n):
             t = rng.choice(types) if rng.random() < 0.5 else rng.choice(["i", "u", "d", "b", "b", "b", "s", "y", "t", "r"])
             e = g.expr(t, rng.choice([1, 1, 2, 2, 3, 4]))
